@@ -199,9 +199,9 @@ def evaluate(case) -> Outcome:
     s = {k: common.smart(val) for k, val in form.get("settings", {}).items()}
     stem = case.get("stem")
     if stem is not None:
-        # file containers: cells are trimmed and non-breaking spaces read as spaces (documented, see C12)
+        # file containers (every one of them): cells are trimmed and non-breaking spaces read as spaces (documented, see C12)
         as_md = use_md(run_form_of(case))
-        s = {k: (val if as_md else val.replace("\xa0", " ")).strip() for k, val in s.items()}
+        s = {k: val.replace("\xa0", " ").strip() for k, val in s.items()}
     exp_id = s.get("form_id", file_stem(case) if stem is not None else "data")
     exp_title = s.get("form_title", exp_id)
     exp_root = s.get("name") or form.get("args", {}).get("form_name") or "data"
